@@ -172,4 +172,62 @@ theorem cutAt_flat (os : List Nat) : ∀ (bytes : List Nat) (at0 : Nat), (cutAt 
     · exact ih bytes at0
     · simp [ih]
 
+/-! ### open streams -/
+
+theorem parseHeader_short (h : List Nat) (hl : h.length ≠ headLen) : parseHeader h = none := by
+  unfold parseHeader; simp [hl]
+
+/-- one `GetNextMessage`: on an open stream it returns a message exactly when it does on the same stream followed by FIN,
+and then the same message and the same rest -/
+theorem getNextOpen_msg (cs : List (List Nat)) :
+    (∀ b rest, getNextOpen cs = (.msg b, rest) ↔ getNext cs = (.msg b, rest)) := by
+  intro b rest
+  unfold getNextOpen getNext getNextWith readAllLimitOpen
+  by_cases hh : (readAllLimit headLen cs).1.length < headLen
+  · have hp : parseHeader (readAllLimit headLen cs).1 = none := parseHeader_short _ (by omega)
+    simp only [hh, if_true, hp]
+    by_cases he : (readAllLimit headLen cs).1 = []
+    · simp [he]
+    · simp [he]
+  · have he : (readAllLimit headLen cs).1 ≠ [] := by
+      intro h; rw [h] at hh; simp [headLen] at hh
+    simp only [hh, if_false, he]
+    cases hp : parseHeader (readAllLimit headLen cs).1 with
+    | none => simp
+    | some size =>
+      by_cases hs : (readAllLimit size (readAllLimit headLen cs).2).1.length < size
+      · simp [hs]
+      · simp [hs]
+
+/-- **the messages do not depend on whether the client half-closes**: an open stream gives the read loop the same
+messages as the same bytes followed by FIN -/
+theorem framesOpen_msgs : ∀ (k : Nat) (cs : List (List Nat)), (framesOpen k cs).1 = (framesOf k cs).1 := by
+  intro k
+  induction k with
+  | zero => intro cs; simp [framesOpen, framesOf]
+  | succ k ih =>
+    intro cs
+    unfold framesOpen framesOf
+    have hm := getNextOpen_msg cs
+    cases ho : getNextOpen cs with
+    | mk e rest =>
+      cases e with
+      | msg b =>
+        have hc := (hm b rest).mp ho
+        simp only [hc, ih rest]
+      | err =>
+        cases hc : getNext cs with
+        | mk e' rest' =>
+          cases e' with
+          | msg b' => have := (hm b' rest').mpr hc; rw [ho] at this; cases this
+          | closed => simp
+          | err => simp
+      | pending =>
+        cases hc : getNext cs with
+        | mk e' rest' =>
+          cases e' with
+          | msg b' => have := (hm b' rest').mpr hc; rw [ho] at this; cases this
+          | closed => simp
+          | err => simp
+
 end Cell2v.Framing
